@@ -1,6 +1,8 @@
 import Driver.Util
+import Driver.Inhibit
 -- engines of work area Alerts: import your Driver.<Engine> modules above and list them here
 namespace Driver.Reg.Alerts
 def engines : List (String × IO UInt32) := [
+  ("inhibit", Driver.runEngine Driver.Inhibit.engine)
 ]
 end Driver.Reg.Alerts
